@@ -33,8 +33,17 @@ func (pass *DisjunctionWithNullToOptional) Process(schemas []*ast.Schema) ([]*as
 	return visitor.VisitSchemas(schemas)
 }
 
-func (pass *DisjunctionWithNullToOptional) processDisjunction(_ *Visitor, _ *ast.Schema, def ast.Type) (ast.Type, error) {
+func (pass *DisjunctionWithNullToOptional) processDisjunction(visitor *Visitor, schema *ast.Schema, def ast.Type) (ast.Type, error) {
+	var err error
 	disjunction := def.AsDisjunction()
+
+	// nested `type | null` disjunctions have to be simplified too
+	for i, branch := range disjunction.Branches {
+		def.Disjunction.Branches[i], err = visitor.VisitType(schema, branch)
+		if err != nil {
+			return ast.Type{}, err
+		}
+	}
 
 	if len(disjunction.Branches) != 2 || !disjunction.Branches.HasNullType() {
 		return def, nil
